@@ -347,12 +347,14 @@ void RangeToken::addRange(const XMLInt32 start, const XMLInt32 end) {
         val2 = start;
     }
 
-    if (fRanges == 0) {
+    if (fRanges == 0 || fElemCount == 0) {
 
-        fRanges = (XMLInt32*) fMemoryManager->allocate
-        (
-            fMaxCount * sizeof(XMLInt32)
-        );//new XMLInt32[fMaxCount];
+        if (fRanges == 0) {
+            fRanges = (XMLInt32*) fMemoryManager->allocate
+            (
+                fMaxCount * sizeof(XMLInt32)
+            );//new XMLInt32[fMaxCount];
+        }
         fRanges[0] = val1;
         fRanges[1] = val2;
         fElemCount = 2;
